@@ -217,7 +217,36 @@ func newContainer(mod func(*container.Builder)) (container.Environment, error) {
 	if mod != nil {
 		mod(b)
 	}
-	return b.Build()
+	// Build gives the new init three seconds to answer its first ping: on a heavily loaded machine that deadline can pass
+	// although nothing is wrong. Such a time-out says nothing about any property: build again (other errors are returned).
+	var c container.Environment
+	var err error
+	for try := 0; try < 6; try++ {
+		c, err = b.Build()
+		if err == nil || !strings.Contains(err.Error(), "i/o timeout") || b.ExecFile != "" {
+			break // (with a custom init the time-out is the scenario itself)
+		}
+		time.Sleep(time.Duration(try+1) * 500 * time.Millisecond)
+	}
+	return c, err
+}
+
+// envUsable tells whether the environment still answers: one request/reply round trip that, unlike Ping, carries no
+// three-second deadline of the library's own (on a loaded machine that deadline can pass although nothing is wrong, and
+// a Ping that times out ends the environment). nil = the container answered (it names the missing file).
+func envUsable(c container.Environment) error {
+	const probe = "/w/.verif-usable-probe-that-does-not-exist"
+	var err error
+	if !withTimeout(3*horizon, func() { err = c.Delete(probe) }) {
+		return fmt.Errorf("no answer within %v", 3*horizon)
+	}
+	if err == nil {
+		return fmt.Errorf("deleting a missing file reported success")
+	}
+	if !strings.Contains(err.Error(), ".verif-usable-probe") {
+		return err
+	}
+	return nil
 }
 
 func execveParam(argv []string) container.ExecveParam {
